@@ -14,12 +14,22 @@ func init() {
 	// ReadFromSTL sets inline attributes on every cue (propagateSTLAttributes: WebVTTAlign from the justification code,
 	// WebVTTLine from the vertical position), which WriteToWebVTT emits as cue settings ("align:left line:82%"); the
 	// plain view (times and line texts) does not carry them, so the bytes differ from vtt_enc of the plain cues.  The
-	// cues themselves (times, texts) are covered for this pair by suiteConvert's oracle.
+	// cues themselves (times, texts) are covered for this pair by suiteConvert's oracle.  The pair itself, cue settings
+	// and colours included, is modelled by coq/Model/ConvStlVtt.v and compared byte for byte by suiteConvertStlStyled
+	// (conv_stl_src.go, group conv.styled.stl->vtt).
 	plainSkipPairs["stl->vtt"] = "STL reader sets WebVTTAlign/WebVTTLine, written by the WebVTT writer as cue settings"
 	// ReadFromSTL fills Metadata.Language from the GSI language code (the writer's default "0F" = French), which
 	// WriteToTTML emits as xml:lang; the plain view carries no metadata, so ttml_enc of the plain cues has no xml:lang.
-	// The cues themselves are covered for this pair by suiteConvert's oracle.
+	// The cues themselves are covered for this pair by suiteConvert's oracle.  The pair itself, language, title and
+	// colours included, is modelled by coq/Model/ConvStlTtml.v and compared byte for byte by suiteConvertStlStyled
+	// (group conv.styled.stl->ttml).
 	plainSkipPairs["stl->ttml"] = "STL reader sets Metadata.Language from the GSI block, written by the TTML writer as xml:lang"
+	// styled sources into STL: modelled by coq/Model/ConvStl.v (the writer joins the line items of a line with a blank; SSA
+	// carries the script's title, TTML frame rate / title / language)
+	plainStyledModels["srt->stl"] = "convsrtstl"
+	plainStyledModels["vtt->stl"] = "convvttstl"
+	plainStyledModels["ssa->stl"] = "convssastl"
+	plainStyledModels["ttml->stl"] = "convttmlstl"
 	plainCodecs = append(plainCodecs, plainCodec{3, "stl", 4e7,
 		func(b []byte) (*astisub.Subtitles, error) {
 			return astisub.ReadFromSTL(bytes.NewReader(b), astisub.STLOptions{})
